@@ -56,7 +56,7 @@ BOUND = {
 }
 REQUIRED_CLASSES = [
     'out_float64', 'out_float32', 'int_operand_ok', 'int32_ok', 'int32_dtype_error', 'nan_expected', 'finite_inelastic',
-    'out_of_domain_single', 'binned_ok', 'broadcast_ok', 'history_single_precision_first', 'history_double_precision_first', 'unit_mismatch_refused', 'path_orthogonal', 'path_generic', 'fallback_int_point',
+    'out_of_domain_single', 'binned_ok', 'broadcast_ok', 'history_single_precision_first', 'history_double_precision_first', 'fine_integer_operand', 'unit_mismatch_refused', 'path_orthogonal', 'path_generic', 'fallback_int_point',
     'same_point_int', 'geom_ok', 'propagate_ok',
 ]
 
@@ -327,6 +327,33 @@ def _run_tof(case, rec):
         if has_int:
             rec.cls('int_operand_ok')
             rec.cls('fallback_int_point' if any(built[a][1] == 'fallback' for a in names) else 'same_point_int')
+    # integer operands that are not whole numbers in any coarser unit (e.g. 2000567 ns, 3001 mm): a kernel that converts
+    # the operand (instead of the constant) to another unit in integer arithmetic rounds them
+    for a in names:
+        if kinds[a] not in ('time', 'length'):
+            continue
+        v, _how = arg_value(kernel, a, kinds[a], units[a], 'int64')
+        v2 = int(v) + (567 if abs(v) >= 10**5 else 1)
+        dmap = {n: 'float64' for n in names}
+        dmap[a] = 'int64'
+        built = {n: (v2 if n == a else arg_value(kernel, n, kinds[n], units[n], 'float64')[0]) for n in names}
+        kw = {n: scalar(built[n], units[n], dmap[n]) for n in names}
+        vals = {n: received(built[n], dmap[n]) for n in names}
+        sub = {'units': units, 'dtypes': dmap, 'fine_integer': a}
+        label = f'{kernel} values {vals} units {units} dtypes {dmap} (fine-grained integer {a})'
+        rec.states += 1
+        rec.transitions += 1
+        try:
+            res = fn(**kw)
+        except (sc.DTypeError, sc.UnitError) as e:
+            rec.viol(site, 'raises_for_fine_integer', f'{label}: {type(e).__name__}: {e}', **sub)
+            continue
+        rec.evals += 1
+        if res.unit != out_unit:
+            rec.viol(site, 'wrong_unit', f'{label}: result unit {res.unit!r}, documented {out_unit!r}', got_unit=str(res.unit), **sub)
+            continue
+        _judge_tof_value(rec, site, kernel, vals, units, precision(tuple(dmap[n] for n in names)), float(res.value), label, sub)
+        rec.cls('fine_integer_operand')
     _run_tof_binned(case, rec)
 
 
